@@ -199,8 +199,13 @@ class Runner:
         self.cls.budget = 20 * self.nlines + 1000
         self.counters["loads"] += 1
         lit = None
+        # every third load runs with warnings turned into errors (python -W error, the library's own pytest setting): a
+        # warning issued while parsing then surfaces as an exception, which must still be funnelled into LoadError
+        strict = self.counters["loads"] % 3 == 0
+        self.counters["loads_warnings_as_errors"] = self.counters.get("loads_warnings_as_errors", 0) + int(strict)
         with warnings.catch_warnings(record=True) as wl:
-            warnings.simplefilter("always")
+            warnings.simplefilter("error" if strict else "always")
+            warnings.simplefilter("always", ResourceWarning)
             try:
                 d = iodata.load_one(self.path, fmt=fmt)
                 exc = None
